@@ -35,108 +35,19 @@ def calls_in(fn, pred):
 
 
 def lookup_rules(repo, res, RULE="G3-LOOKUP"):
-    """the two spatial lookups filter candidates by geometry and map them to lanelet ids consistently
-    (shared with C07, whose assignment sets are exactly the results of these lookups).  Decided on normal forms
-    (sa/flowtools): loops or comprehensions, hoisted locals and extracted single-return helpers are all the same."""
-    from ..core import helper_table
-    from ..flowtools import collected
+    """the two spatial lookups filter candidates by geometry and map them to lanelet ids consistently (shared with
+    C07, whose assignment sets are exactly the results of these lookups).  Decided by abstract evaluation against a
+    model of the spatial tree (c06ev.lookup_rules): what is compared is the answer, not the layout of the code."""
+    from . import c06ev
 
-    lmod = repo.mod(LA)
-    net = repo.cls(LA, "LaneletNetwork")
-    fs = repo.method(LA, "LaneletNetwork", "find_lanelet_by_shape")
-    q = "LaneletNetwork.find_lanelet_by_shape"
-    hp = helper_table(net, lmod, fs, repo)
-    rd = ReachingDefs(fs)
-    sp = fs.args.args[1].arg
-    cols, _rn = collected(lmod, fs, rd, [sp], hp)
-    QS = "self.strtee.query(%s.shapely_object)" % sp
-    ok = len(cols) == 1 and len(cols[0].iters) == 1 and cols[0].iters[0][1] == QS
-    res.check(RULE, "find_lanelet_by_shape collects over the tree candidates of the shape's geometry", ok, lmod, fs, "find_lanelet_by_shape iterates %s" % ([c.iters and c.iters[-1][1] for c in cols]), "the tree is not queried with the geometry of the given shape (or the result is not built from the candidates)", qualname=q)
-    ok2 = False
-    ok3 = False
-    if ok:
-        c = cols[0]
-        v = c.iters[0][0]
-        G = "self.strtee.geometries[%s]" % v
-        ok2 = any(p and t == "%s.intersects(%s.shapely_object)" % (G, sp) for t, p, _n in c.guards)
-        et = canon(c.elem, rd, rd.stmt_of(c.node) if not isinstance(c.node, ast.stmt) else c.node, [sp], hp)
-        ok3 = et == canon(ast.parse("self._get_lanelet_id_by_shapely_polygon(self._strtee.geometries[%s])" % v, mode="eval").body, None, None, [sp], hp)
-    res.check(RULE, "find_lanelet_by_shape keeps exactly the candidates whose polygon intersects the queried geometry", ok2, lmod, fs, "find_lanelet_by_shape filter %s" % ([t for cc in cols for t, p, _n in cc.guards]), "candidates (bounding-box hits) are not filtered by `intersects` against the very geometry queried with", qualname=q)
-    res.check(RULE, "find_lanelet_by_shape maps each kept candidate through the id map", ok3, lmod, fs, "find_lanelet_by_shape element %s" % ([norm(cc.elem)[:70] for cc in cols]), "a hit is mapped to a lanelet id through another object than the polygon that was tested", qualname=q)
-    # ---- by position
-    fp = repo.method(LA, "LaneletNetwork", "find_lanelet_by_position")
-    q = "LaneletNetwork.find_lanelet_by_position"
-    hp2 = helper_table(net, lmod, fp, repo)
-    rdp = ReachingDefs(fp)
-    pp = fp.args.args[1].arg
-    qs = calls_in(fp, lambda c: norm(c.func) == "self._strtee.query")
-    ok = len(qs) == 1
-    pred = None
-    if ok:
-        kw = {k.arg: k.value for k in qs[0].keywords}
-        pred = kw.get("predicate")
-        dist = kw.get("distance")
-        pv = pred.value if isinstance(pred, ast.Constant) else None
-        ok = pv in ("dwithin", "intersects", "covered_by")
-        if pv == "dwithin":
-            dv = None
-            if dist is not None:
-                dt = canon(dist, rdp, rdp.stmt_of(qs[0]), [pp], hp2)
-                try:
-                    dv = float(dt)
-                except ValueError:
-                    dv = None
-            ok = ok and dv is not None and 0 <= dv <= 1e-9
-        pts = canon(qs[0].args[0], rdp, rdp.stmt_of(qs[0]), [pp], hp2) if qs[0].args else ""
-        ok = ok and pts in ("[ShapelyPoint(p) for p in %s]" % pp, "[shapely.geometry.Point(p) for p in %s]" % pp) or (ok and pts.startswith("[") and pts.endswith("for p in %s]" % pp) and "Point(p)" in pts)
-    res.check(RULE, "find_lanelet_by_position queries all points with a boundary-inclusive predicate", ok, lmod, fp, "find_lanelet_by_position query predicate=%s" % (norm(pred) if pred is not None else None), "points on a lanelet boundary (or inside) are not reported, or not every query point is looked up", qualname=q)
-    ok = False
-    if qs:
-        Q = canon(qs[0], rdp, rdp.stmt_of(qs[0]), [pp], hp2)
-        pair_loops = []
-        for n in ast.walk(fp):
-            if isinstance(n, ast.For):
-                it = canon(n.iter, rdp, n, [pp], hp2)
-                if it in ("zip(*%s)" % Q, "zip(%s[0], %s[1])" % (Q, Q)) and isinstance(n.target, ast.Tuple) and len(n.target.elts) == 2:
-                    pair_loops.append(n)
-        if len(pair_loops) == 1:
-            lp = pair_loops[0]
-            inp, geo = [e.id for e in lp.target.elts]
-            want = canon(ast.parse("self._get_lanelet_id_by_shapely_polygon(self._strtee.geometries[%s])" % geo, mode="eval").body, None, None, [pp], hp2)
-            hits = []
-            for c in ast.walk(lp):
-                if isinstance(c, ast.Call) and isinstance(c.func, ast.Attribute) and c.func.attr == "append" and isinstance(c.func.value, ast.Subscript) and norm(c.func.value.slice) == inp and len(c.args) == 1:
-                    hits.append(canon(c.args[0], rdp, rdp.stmt_of(c), [pp], hp2) == want)
-            ok = hits == [True]
-    res.check(RULE, "find_lanelet_by_position pairs (input index, tree index) and maps hits by the id map", ok, lmod, fp, "find_lanelet_by_position mapping", "hits are attributed to the wrong query point or mapped to the wrong lanelet id", qualname=q)
-    # one answer per query point, in order
-    rets = [n for n in walk_no_nested(fp) if isinstance(n, ast.Return)]
-    ok = False
-    if len(rets) == 1:
-        rv = rets[0].value
-        comps = []
-        if isinstance(rv, ast.Name):
-            for d in rdp.defs(rv.id, rets[0]):
-                if d.node is not None:
-                    comps.append(d.node)
-        else:
-            comps.append(rv)
-        ok = bool(comps)
-        for cmp_ in comps:
-            good = isinstance(cmp_, ast.ListComp) and len(cmp_.generators) == 1 and not cmp_.generators[0].ifs and norm(cmp_.generators[0].iter) in (pp, "enumerate(%s)" % pp, "range(len(%s))" % pp)
-            ok = ok and good
-    res.check(RULE, "find_lanelet_by_position answers once per query point, in order", ok, lmod, fp, "find_lanelet_by_position result", "the result list is not aligned with the list of query points", qualname=q)
-    gi = repo.method(LA, "LaneletNetwork", "_get_lanelet_id_by_shapely_polygon")
-    rets = [n for n in walk_no_nested(gi) if isinstance(n, ast.Return)]
-    ok = len(rets) == 1 and canon(rets[0].value, ReachingDefs(gi), rets[0], [gi.args.args[1].arg]) == "self.lanelet_id_index_by_id[id(%s)]" % gi.args.args[1].arg
-    res.check(RULE, "_get_lanelet_id_by_shapely_polygon reads the id map by id(polygon)", ok, lmod, gi, "_get_lanelet_id_by_shapely_polygon", "tree geometries are mapped to lanelet ids by another key than the one the map is built with", qualname="LaneletNetwork._get_lanelet_id_by_shapely_polygon")
-    return fs
+    return c06ev.lookup_rules(repo, res, RULE)
+
 
 
 def run(repo, res, tier):
     res.rule("G1-SHAPE-AGREE", "containment predicate, exported geometry and drawing of each shape use the same parameters", 14)
     res.rule("G2-INDEX", "spatial index mirrors lanelet polygons and is rebuilt on every construction route", 12)
-    res.rule("G3-LOOKUP", "lookups filter and map tree results consistently", 7)
+    res.rule("G3-LOOKUP", "lookups filter and map tree results consistently", 2)
     res.rule("G4-PROTOCOL", "query shapes export shapely_object; obstacle mapping uses polygon and occupancy shape", 6)
     smod = repo.mod(SH)
 
